@@ -38,7 +38,14 @@ def restricted(c, in_or=False):
         return not in_or or c["o"] == "once"
     if c["k"] == "seq":
         return c["o"] == "once" and not in_or and all(restricted(k) for k in c["c"])
-    return not in_or and all("n" in k and k["o"] == "once" for k in c["c"])
+    if in_or:
+        return False
+    if c["o"] == "once":
+        # a choice that does not repeat: an alternative may also be a sequence of single elements, e.g.
+        # ((name | (first, last)), email?) — nothing repeats there
+        return all(k["o"] == "once" if "n" in k
+                   else (k["k"] == "seq" and k["o"] == "once" and all("n" in x and x["o"] == "once" for x in k["c"])) for k in c["c"])
+    return all("n" in k and k["o"] == "once" for k in c["c"])
 
 
 def contents(rng, n, dup_share=0.3):
@@ -347,8 +354,42 @@ HAND_DOCS = [
 ]
 
 
+def choice_of_sequences(rng, n):
+    """non-repeating choices with multi-element sequence alternatives, alone, inside a sequence (before / after /
+    between single elements, optional or repeating), e.g. ((name | (first, last)), email?), (a, (b | (c, d))),
+    ((a, b) | (c, d, e)): with compound fields the alternatives share one field and every branch must survive"""
+    for i in range(n):
+        pool = ["a", "b", "c", "d", "e", "f", "g"]
+        rng.shuffle(pool)
+        alts, branches = [], []
+        for _ in range(rng.randint(2, 3)):
+            k = rng.choice([1, 2, 2, 3])
+            if len(pool) < k + 2:
+                break
+            ns, pool = pool[:k], pool[k:]
+            alts.append(_el(ns[0]) if k == 1 else {"k": "seq", "o": "once", "c": [_el(x) for x in ns]})
+            branches.append(ns)
+        if len(alts) < 2 or all("n" in x for x in alts):
+            continue
+        ch = {"k": "or", "o": "once", "c": alts}
+        shape = i % 4
+        if shape == 0:
+            c, words = ch, [list(b) for b in branches]
+        else:
+            x, xo = pool[0], rng.choice(["once", "opt", "mult", "plus"])
+            reps = {"once": [1], "opt": [0, 1], "mult": [0, 2], "plus": [1, 3]}[xo]
+            kids = [ch, _el(x, xo)] if shape == 1 else [_el(x, xo), ch] if shape == 2 else [_el(x, xo), ch, _el(pool[1], "opt")]
+            c = {"k": "seq", "o": "once", "c": kids}
+            words = []
+            for b in branches:
+                for r in reps:
+                    w = list(b) + [x] * r if shape == 1 else [x] * r + list(b)
+                    words.append(w + ([pool[1]] if shape == 3 and r else []))
+        yield c, words
+
+
 def gen_docs(rng, tier):
-    for c, words in HAND_DOCS:
+    for c, words in HAND_DOCS + list(choice_of_sequences(rng, n_cases(tier, 12, 400))):
         if valid_dtd(c):
             yield {"content": c, "words": words, "attrs": [], "ns": None}
     for c in contents(rng, n_cases(tier, 50, 100000)):
